@@ -41,6 +41,11 @@ def main():
     if v is None:
         print("NOT-REPRODUCED")
         sys.exit(4)
+    try:   # the full verdict of THIS run, for the caller (the verdict seen during exploration may have been a different one)
+        with open(path + ".verdict", "w", encoding="utf-8") as f:
+            json.dump(v, f, default=repr, ensure_ascii=True)
+    except OSError:
+        pass
     print("REPRODUCED", json.dumps(v, default=repr, ensure_ascii=True)[:2000])
     sys.exit(0)
 
